@@ -214,8 +214,13 @@ def build_and_run(h, tier, workroot, keep=False):
             for n in lst:
                 cmd += ["--property", n]
             return sh(cmd, cwd=wd, timeout=tmo, mem_gb=h.get("mem_gb", 24))
-        with ThreadPoolExecutor(max_workers=nshards) as ex:
-            shard_res = list(ex.map(run_shard, [s for s in shards if s]))
+        while True:
+            with ThreadPoolExecutor(max_workers=nshards) as ex:
+                shard_res = list(ex.map(run_shard, [s for s in shards if s]))
+            if any("too many addressed objects" in (o + e) for _rc, o, e, _w in shard_res) and int(cb[ob_idx + 1]) < 14:
+                cb[ob_idx + 1] = str(int(cb[ob_idx + 1]) + 2)
+                continue
+            break
         w = time.time() - t_sh
         res["cmds"].append(" ".join(cb) + "   [x%d shards via --property]" % nshards)
         for rc, out, err, _w in shard_res:
